@@ -65,7 +65,10 @@ Denote(r) == Req(IF r.query.p = "val" THEN r.query.v.a ELSE "EMPTY",
 (*                      extensions are JSON-encoded strings in a query string)  *)
 (*  multipart         : parts = sequence of named form fields with JSON texts   *)
 (*                      ("operations" and "map" of the multipart request spec)  *)
-Wire(enc, body, params, parts) == [enc |-> enc, body |-> body, params |-> params, parts |-> parts]
+\* ws names the insignificant whitespace the renderer puts before, after and inside every JSON text of the
+\* wire form ("none" "sp" "tab" "cr" "lf" "mix"); RFC 8259 section 2 allows it around every structural character,
+\* so no decoder below looks at it: the decoded request does not depend on ws.
+Wire(enc, ws, body, params, parts) == [enc |-> enc, ws |-> ws, body |-> body, params |-> params, parts |-> parts]
 Param(key, kind, a, j) == [key |-> key, kind |-> kind, a |-> a, j |-> j]
 Part(name, j) == [name |-> name, j |-> j]
 
@@ -73,7 +76,7 @@ Rev(s) == [i \in 1..Len(s) |-> s[Len(s) + 1 - i]]
 Present(f) == f.p # "absent"
 FVal(f) == IF f.p = "null" THEN JNull ELSE f.v
 
-\* variant v: [rev |-> BOOLEAN, extra |-> "none" | "unknown" | "snake"] -- member / parameter order, and extra
+\* variant v: [rev |-> BOOLEAN, extra |-> "none" | "unknown" | "snake", ws |-> whitespace kind] -- member / parameter order, and extra
 \* members / parameters that the protocol does not define (they must be ignored): "unknown" adds foo,
 \* "snake" adds operation_name (which is *not* the operation name in any transport).
 JsonMembers(r) ==
@@ -86,8 +89,8 @@ JsonReq(r, v) ==
                                 ELSE IF v.extra = "snake" THEN <<Mem("operation_name", JStr("PLAIN"))>> ELSE <<>>)
   IN JObj(IF v.rev THEN Rev(ms) ELSE ms)
 
-EncodeJson(r, v)       == Wire("json", JsonReq(r, v), <<>>, <<>>)
-EncodeJsonBatch(rs, v) == Wire("json-batch", JList([i \in 1..Len(rs) |-> JsonReq(rs[i], v)]), <<>>, <<>>)
+EncodeJson(r, v)       == Wire("json", v.ws, JsonReq(r, v), <<>>, <<>>)
+EncodeJsonBatch(rs, v) == Wire("json-batch", v.ws, JList([i \in 1..Len(rs) |-> JsonReq(rs[i], v)]), <<>>, <<>>)
 
 \* A query string cannot say "null" for a string parameter: a null operationName is omitted.
 GetParams(r) ==
@@ -98,12 +101,12 @@ GetParams(r) ==
 EncodeGet(r, v) ==
   LET ps == GetParams(r) \o (IF v.extra = "unknown" THEN <<Param("foo", "raw", "AMP", JNull)>>
                               ELSE IF v.extra = "snake" THEN <<Param("operation_name", "raw", "PLAIN", JNull)>> ELSE <<>>)
-  IN Wire("get", JNull, IF v.rev THEN Rev(ps) ELSE ps, <<>>)
+  IN Wire("get", v.ws, JNull, IF v.rev THEN Rev(ps) ELSE ps, <<>>)
 
 MpParts(j, v) == IF v.rev THEN <<Part("map", EmptyObj), Part("operations", j)>>
                           ELSE <<Part("operations", j), Part("map", EmptyObj)>>
-EncodeMultipart(r, v)       == Wire("multipart", JNull, <<>>, MpParts(JsonReq(r, v), v))
-EncodeMultipartBatch(rs, v) == Wire("multipart-batch", JNull, <<>>,
+EncodeMultipart(r, v)       == Wire("multipart", v.ws, JNull, <<>>, MpParts(JsonReq(r, v), v))
+EncodeMultipartBatch(rs, v) == Wire("multipart-batch", v.ws, JNull, <<>>,
                                     MpParts(JList([i \in 1..Len(rs) |-> JsonReq(rs[i], v)]), v))
 
 Encode(enc, rs, v) ==
@@ -172,10 +175,7 @@ Decode(w) ==
 --------------------------------------------------------------------------------
 (* Named deviations of today's code (known_findings/C23.json).                  *)
 
-\* DevGetOperationNameKey: parse_query_string reads the operation name from the parameter
-\* `operation_name`; `operationName` is an unknown parameter and is ignored.
-DevGetDecode(w) == DecodeGetWith(w.params, "operation_name")
-DevGetTrigger(w) == w.enc = "get" /\ (PHas(w.params, "operationName") \/ PHas(w.params, "operation_name"))
+\* (DevGetOperationNameKey -- GET `operationName` ignored -- was fixed in /repo and its switch deleted.)
 
 \* DevSeqAsRequest: a JSON *array* in request position is read as a request by position
 \* [query, operationName, variables, extensions] (serde's struct-from-sequence form, tried before the
@@ -211,7 +211,6 @@ DevSeqTrigger(w) ==
 \* Verdict of one observed outcome for one wire form.
 Judge(w, obs) ==
   IF OutcomeEq(Decode(w), obs) THEN "ok"
-  ELSE IF DevGetTrigger(w) /\ OutcomeEq(DevGetDecode(w), obs) THEN "known:DevGetOperationNameKey"
   ELSE IF DevSeqTrigger(w) /\ OutcomeEq(DevSeqDecode(w), obs) THEN "known:DevSeqAsRequest"
   ELSE "violation"
 
